@@ -409,6 +409,7 @@ int reb_simulation_remove_particle(struct reb_simulation* const r, int index, in
 
 	if (r->N==1){
 	    r->N = 0;
+	    reb_tree_delete(r); // the only leaf refers to the removed particle
         if(r->free_particle_ap){
             r->free_particle_ap(&r->particles[index]);
         }
